@@ -6,6 +6,25 @@ from .auth.base import BaseAuth
 from .exceptions import ClientError, HTTPError, ServerError
 
 
+def _header_text(value: Any) -> Any:
+    """
+    Renders a header value as text. Generated methods pass typed parameter values (int, bool, lists) while httpx
+    accepts only str or bytes; lists follow the OpenAPI "simple" style (comma-separated).
+    """
+    if isinstance(value, bool):
+        return "true" if value else "false"
+    if isinstance(value, (int, float)):
+        return str(value)
+    if isinstance(value, (list, tuple)):
+        return ",".join([str(_header_text(item)) for item in value])
+    return value
+
+
+def _header_texts(headers: dict[str, Any]) -> dict[str, Any]:
+    """Renders every value of a header map as text, keeping the header names."""
+    return {name: _header_text(value) for name, value in headers.items()}
+
+
 class HttpTransport(Protocol):
     """
     Defines the interface for an asynchronous HTTP transport layer.
@@ -134,7 +153,7 @@ class HttpxTransport:
 
         # 2. Merge headers passed specifically for this request (overriding transport defaults)
         if "headers" in current_request_kwargs and isinstance(current_request_kwargs["headers"], dict):
-            prepared_headers.update(current_request_kwargs["headers"])
+            prepared_headers.update(_header_texts(current_request_kwargs["headers"]))
 
         # 3. Apply authentication plugin or bearer token (which can further modify headers)
         # The auth plugin sees a copy of the request arguments with the merged headers, so that plugins which
